@@ -194,7 +194,36 @@ func c10Pool(rng *rand.Rand) poolCase {
 	return pc
 }
 
+// caseFamily: objects whose keys differ only in case, read and stored under spellings that are and are not keys
+func caseFamily(rng *rand.Rand) poolCase {
+	spell := [][]string{{"ID", "Id", "iD", "id"}, {"Name", "NAME", "name", "nAme"}, {"k", "K"}}
+	var in strings.Builder
+	for r := 0; r < 3; r++ {
+		in.WriteString("{")
+		first := true
+		for _, grp := range spell {
+			for _, k := range grp {
+				if rng.IntN(3) == 0 {
+					continue
+				}
+				if !first {
+					in.WriteString(", ")
+				}
+				first = false
+				fmt.Fprintf(&in, "\"%s\": %d", k, rng.IntN(9))
+			}
+		}
+		in.WriteString("}\n")
+	}
+	pick := func(g int) string { return spell[g][rng.IntN(len(spell[g]))] }
+	prog := fmt.Sprintf("{ print $.%s, $.%s, $['%s'], $.%s; $.%s = 'set'; $.%s++; print $; o = {%s: 1, %s: 2}; print o.%s, o.%s, o }", pick(0), pick(1), pick(0), pick(2), pick(0), pick(1), spell[0][0], spell[0][1], pick(0), pick(0))
+	return poolCase{prog: prog, input: []byte(in.String()), kind: "case-variant-keys", multi: true}
+}
+
 func c10PoolRaw(rng *rand.Rand) poolCase {
+	if rng.IntN(14) == 0 {
+		return caseFamily(rng)
+	}
 	if rng.IntN(10) == 0 {
 		return literalFamily(rng)
 	}
@@ -229,6 +258,11 @@ func c10PoolRaw(rng *rand.Rand) poolCase {
 		return poolCase{prog: c10Disturbers[rng.IntN(len(c10Disturbers))], input: []byte(`[{"b": 1, "a": [1, 2], "c": {"z": 1, "y": 2}}, {"k": "v", "j": null}]`), kind: "disturber", multi: true}
 	case 10:
 		g := &wildGen{rng: rng}
+		if rng.IntN(2) == 0 {
+			// selectors with a memory: whatever they count or collect starts afresh in every run
+			sel := []string{"[$.a, n++]", "[seen[$.b.d]++, $.b]", "match (acc.push(1)) { v => v.length() }", "{k: (total = total + $.b.d), first: n++ == 0}", "[$.a[n++ % 2]]"}[rng.IntN(5)]
+			return poolCase{prog: "BEGIN { acc = [] } { print $ } END { print 'e', n, total }", sels: []string{sel, "$", sel}, input: []byte(`{"b": {"d": 1, "c": 2}, "a": [1, {"y": 1, "x": 2}]}` + "\n" + `{"b": {"d": 5}, "a": [7, 8]}`), kind: "stateful-selectors", multi: true}
+		}
 		return poolCase{prog: "{ print $ } END { print 'e' }", sels: []string{CanonExpr(g.expr(3)), "$"}, input: []byte(`{"b": {"d": 1, "c": 2}, "a": [1, {"y": 1, "x": 2}]}`), kind: "selectors", multi: true}
 	}
 	g := &matchGen{rng: rng, stats: map[string]int{}}
@@ -502,7 +536,7 @@ func c10Run(c *Case) {
 func init() {
 	register(&Prop{
 		ID: "C10", Level: "exploration",
-		Rule: "metamorphic: a case (program, selectors, input) drawn from a pool (object family: print / printf %v / for-in / json() / key collection+sort / pluck over objects with 2-16 keys from literals and from the input; whole-grammar programs; a container-comparison family (objects of 2-6 mixed members compared, searched and matched: the outcome, error or not, is the same every time); inputs prefixed with a byte order mark, half of one, a record separator or white space; a literal-content family whose output depends on every regex / string / number literal at fixed source positions, in rules, functions, match cases and selectors; structured, function, assignment-history, match programs; document printing; selectors; 12 'disturber' programs that assign to method names, fail inside calls, hit limits, build cycles) is executed in-process 8 times back to back, 3 more times each after 1-3 unrelated pool/disturber runs in the same process, 4 times with the same input bytes delivered in reads of 1 / 1-2 / 1-7 / 5 bytes, once more after its position-preserving sibling (same layout, every string / regex / number literal replaced by other content of the same length, in program and selectors), and (every 4th case) in 4 fresh processes of the binary with -o -; stdout, JSON output (or its error) and outcome class must be byte-identical across all of them. Non-trivial = the case touches an object with >= 2 keys or a prototype method; distinct by program+input+selectors. Go randomises map iteration per range statement, so an order-dependent output over n >= 3 keys repeats 11 times by chance with probability < 1e-8.",
+		Rule: "metamorphic: a case (program, selectors, input) drawn from a pool (object family: print / printf %v / for-in / json() / key collection+sort / pluck over objects with 2-16 keys from literals and from the input; whole-grammar programs; objects whose keys differ only in case, read and stored under spellings that are and are not keys; selectors with a memory (counters, collections: they start afresh in every run); a container-comparison family (objects of 2-6 mixed members compared, searched and matched: the outcome, error or not, is the same every time); inputs prefixed with a byte order mark, half of one, a record separator or white space; a literal-content family whose output depends on every regex / string / number literal at fixed source positions, in rules, functions, match cases and selectors; structured, function, assignment-history, match programs; document printing; selectors; 12 'disturber' programs that assign to method names, fail inside calls, hit limits, build cycles) is executed in-process 8 times back to back, 3 more times each after 1-3 unrelated pool/disturber runs in the same process, 4 times with the same input bytes delivered in reads of 1 / 1-2 / 1-7 / 5 bytes, once more after its position-preserving sibling (same layout, every string / regex / number literal replaced by other content of the same length, in program and selectors), and (every 4th case) in 4 fresh processes of the binary with -o -; stdout, JSON output (or its error) and outcome class must be byte-identical across all of them. Non-trivial = the case touches an object with >= 2 keys or a prototype method; distinct by program+input+selectors. Go randomises map iteration per range statement, so an order-dependent output over n >= 3 keys repeats 11 times by chance with probability < 1e-8.",
 		NumCases: func(tier string) int {
 			if tier == "thorough" {
 				return 60000
